@@ -577,6 +577,10 @@ func (s *Scanner) Scan() SyntaxKind {
 					s.tokenFlags |= TF_HexSpecifier
 					// s.token = s.checkNumberSuffix()
 					// return s.token
+					// hexadecimal literals are not part of the language: '0' directly followed by
+					// an identifier character is an error, and the token must be recorded
+					s.errorAtPos(M_An_identifier_or_keyword_cannot_immediately_follow_a_numeric_literal, s.tokenPos+1, s.pos-s.tokenPos-1)
+					s.token = SK_NumberLiteral
 					return SK_NumberLiteral
 				}
 			}
